@@ -506,21 +506,26 @@ struct bind_s {
 	int h;
 	int bday;	/* index into bdays */
 	const char *arg;	/* duration for dadd; NULL for dconv -f %s */
+	const char *cal;	/* non-NULL: the lines are read with `-i CAL' (a calendar name as input format) and printed
+				 * in the tool's default format; the library level parses with the same name */
 };
 static const struct bind_s binds[] = {
 	{"dadd", H_YMD, 2, "+1s"}, {"dadd", H_YMD, 2, "-86401s"}, {"dadd", H_YWD, 3, "+61m"}, {"dadd", H_YMCW, 3, "-25h"},
 	{"dadd", H_YD, 2, "+3601s"}, {"dadd", H_SEXYFMT, 4, "+2147483647s"}, {"dconv", H_YMD, 1, NULL}, {"dconv", H_YWD, 3, NULL},
 	/* negative epoch counts as stdin lines (1969-12-31: -86400 .. -1) */
 	{"dconv", H_SEXYFMT, 1, NULL}, {"dadd", H_SEXYFMT, 1, "+1s"},
+	/* calendar names as input format, date-times on stdin */
+	{"dadd", H_YMD, 2, "+1s", "ymd"}, {"dadd", H_YD, 2, "+1s", "yd"},
 	/* thorough only from here; -i %s runs avoid 1970-01-01 (the count 0 is rejected, see notes/C11-defects.md, and a
 	 * skipped line would shift the comparison) and negative durations: `dadd -i %s -1s' reads "-1s" as the
 	 * date @-1 (trailing text is not refused) and then takes stdin for durations -- parsing is C09's business */
 	{"dadd", H_YMD, 0, "-1s"}, {"dadd", H_YMD, 5, "+86399s"}, {"dadd", H_YWD, 13, "+1s"}, {"dadd", H_YWD, 14, "-1s"},
 	{"dadd", H_YMCW, 18, "+59m"}, {"dadd", H_YD, 3, "+1h"}, {"dadd", H_SEXYFMT, 2, "+86400s"}, {"dadd", H_YMD, 12, "+172800s"},
 	{"dconv", H_YMCW, 2, NULL}, {"dconv", H_YD, 5, NULL}, {"dconv", H_YMD, 0, NULL}, {"dconv", H_YMD, 5, NULL},
+	{"dadd", H_YWD, 2, "+1s", "ywd"}, {"dadd", H_YMCW, 2, "+1s", "ymcw"}, {"dadd", H_BIZDA, 2, "+1s", "bizda"}, {"dadd", H_YMD, 3, "-1s", "ymd"},
 	{"ddiff", H_YMD, 2, "2012-03-01T00:00:00"}, {"ddiff", H_YWD, 3, "2013-W01-2T12:00:00"}, {"ddiff", H_YMD, 1, "1970-01-01T00:00:00"},
 };
-#define NBIND_QUICK	10
+#define NBIND_QUICK	12
 #define NBIND		((int)(sizeof(binds) / sizeof(*binds)))
 
 static void
@@ -549,11 +554,13 @@ do_bind(int k)
 		fprintf(f, "%s\n", text);
 	}
 	fclose(f);
-	if (held_ifmt[b->h]) {
+	if (b->cal) {
+		snprintf(opt, sizeof(opt), "-i %s ", b->cal);
+	} else if (held_ifmt[b->h]) {
 		snprintf(opt, sizeof(opt), "-i '%s' ", held_ifmt[b->h]);
 	}
 	if (!strcmp(b->tool, "dadd")) {
-		if (held_ofmt[b->h]) {
+		if (held_ofmt[b->h] && !b->cal) {
 			snprintf(opt + strlen(opt), sizeof(opt) - strlen(opt), "-f '%s' ", held_ofmt[b->h]);
 		}
 		snprintf(cmd, sizeof(cmd), "'%s/src/dadd' %s-- %s < '%s' > '%s' 2>/dev/null", ex.tree, opt, b->arg, fin, fout);
@@ -568,8 +575,9 @@ do_bind(int k)
 		return;
 	}
 	++*c_bind;
-	snprintf(key, sizeof(key), "binding %s rep=%s %s%s", b->tool, held_name[b->h], b->arg ? b->arg : "-f %s",
-		 (b->h == H_SEXY || b->h == H_SEXYFMT) && rc_get(rd)->unixd < 0 ? " negative-counts-on-stdin" : "");
+	snprintf(key, sizeof(key), "binding %s rep=%s %s%s%s%s", b->tool, held_name[b->h], b->arg ? b->arg : "-f %s",
+		 (b->h == H_SEXY || b->h == H_SEXYFMT) && rc_get(rd)->unixd < 0 ? " negative-counts-on-stdin" : "",
+		 b->cal ? " date-times-on-stdin -i " : "", b->cal ? b->cal : "");
 	if ((f = fopen(fout, "r")) == NULL) {
 		ex_viol(key, 0, "", cmd, "no output from the binary");
 		return;
@@ -578,7 +586,15 @@ do_bind(int k)
 		struct dt_dt_s v;
 		line[strcspn(line, "\n")] = '\0';
 		memset(exp, 0, sizeof(exp));
-		if (held_value(b->h, rd, s, &v, text, sizeof(text))) {
+		if (b->cal) {
+			/* what `dadd -i CAL TEXT DUR' does with the text as an argument */
+			held_text(b->h, rd, s, text, sizeof(text));
+			v = dt_strpdt(text, b->cal, NULL);
+			if (!dt_unk_p(v)) {
+				struct dt_dt_s r = st.ndurs ? dt_dtadd(v, st.durs[0]) : v;
+				dt_strfdt(exp, sizeof(exp), NULL, r);
+			}
+		} else if (held_value(b->h, rd, s, &v, text, sizeof(text))) {
 			if (!strcmp(b->tool, "dadd")) {
 				struct dt_dt_s r = st.ndurs ? dt_dtadd(v, st.durs[0]) : v;
 				dt_strfdt(exp, sizeof(exp), held_ofmt[b->h], r);
@@ -661,6 +677,10 @@ main(int argc, char *argv[])
 			mk_seqs(1);
 			k = a[3] == 2 ? a[4] * NSEQA + a[5] : nseq2 + (a[4] * NSEQA + a[5]) * NSEQA + b7[0];
 			return ex_replay_result(judge_seq(a[0], a[1], a[2], k, k + 1, 1), "sequence of %d durations rep=%s", a[3], held_name[a[0]]);
+		}
+		if (!strncmp(ex.cas, "SDZ ", 4) && sscanf(ex.cas + 4, "%d", a) == 1 && a[0] >= 0 && a[0] < NSDZ) {
+			mk_seqs(0);
+			return ex_replay_result(judge_stdin_durs(a[0], 1), "durations on stdin with --from-zone %s", seq_zones[sdz[a[0]].zi]);
 		}
 		if (!strncmp(ex.cas, "ZEP ", 4) && sscanf(ex.cas + 4, "%d %d %d %d", a, a + 1, a + 2, a + 3) == 4 &&
 		    a[0] >= 0 && a[0] < NSEQZ && rc_get(a[1]) && a[2] >= 0 && a[2] < 86400) {
@@ -790,6 +810,13 @@ main(int argc, char *argv[])
 			}
 			ex_sample("SEQ zone %s local time second %d: all %d pairs after --from-zone, dadd binary on the pairs with +24h", seq_zones[zi],
 				  seq_ztod[ti], nseq2);
+		}
+	}
+	/* durations on stdin with --from-zone; slice = case */
+	for (int k = 0; k < NSDZ; k++, slice++) {
+		if (ex_mine(slice) && !ex_expired()) {
+			judge_stdin_durs(k, 0);
+			++*c_traces;
 		}
 	}
 	/* ZEP: %s / @N under --zone / --from-zone; slice = (zone, boundary day) */
